@@ -18,7 +18,7 @@ FORMS = ["int", "tuple", "bounds"]
 
 def functions(ns):
     A = ns.pg.AtLeast
-    return [A.evaluate_propositions, A.assume, A._equation_mm, A.equation_bounds, A.is_tautology, A.is_contradiction,
+    return [A.evaluate_propositions, A.evaluate, A.assume, A._equation_mm, A.equation_bounds, A.is_tautology, A.is_contradiction,
             ns.puan.variable.evaluate, ns.puan.variable.assume]
 
 
@@ -99,14 +99,16 @@ def run_inst(spec, run):
             pres[l] = p
         interp = E.SymDict(ent)
         ref = {nid: pl.obj_sem(ns, objs[0], {k: v.e for k, v in comp.items()}) for nid, objs in nodes.items()}
-        err = r = None
+        err = r = ev = None
         try:
             if spec.get("warm"):
                 plh.warm(ns, m1)
             r = m1.evaluate_propositions(interp)
+            # evaluate() on a fresh copy with the same partial interpretation: its bounds must contain the model's value as well
+            ev = pl.build(ns, model_spec, env).evaluate(interp)
         except Exception as e:   # noqa
             err = "%s: %s" % (type(e).__name__, e)
-        return dict(env=env, comp=comp, ivs=ivs, pres=pres, flags=flags, ref=ref, r=r, err=err, interp=interp)
+        return dict(env=env, comp=comp, ivs=ivs, pres=pres, flags=flags, ref=ref, r=r, err=err, interp=interp, ev=ev, topid=m0.id)
 
     def _flags(ctx, res, conc):
         # flags
@@ -194,6 +196,9 @@ def run_inst(spec, run):
                     run.region("non-constant-result")
         if set(res["r"]) != set(res["ref"]):
             viol.append(z3.BoolVal(True))
+        if res.get("ev") is not None and res["topid"] in res["ref"]:
+            tt = res["ref"][res["topid"]]
+            viol.append(z3.Or(tt < S.term(res["ev"].lower), tt > S.term(res["ev"].upper)))
         run.obligation(ctx, "bounds-contain-completion", z3.Or(viol), conc)
         run.validate(ctx, conc, lambda m: {"props": {k: [S.model_int(m, b.lower), S.model_int(m, b.upper)] for k, b in res["r"].items()}}, extremes=plh.extremes(env))
         run.sample({"model": pl.show(model_spec), "mode": spec["mode"], "path_condition": [str(z3.simplify(c)) for c in ctx.pc][:6]})
